@@ -39,6 +39,14 @@ def cases(tier):
                             '%s: argv=[%s] environ=[%s], buffers %s' % (NSNAME[ns], ', '.join(STRS[k] for k in v), ', '.join(STRS[k] for k in env),
                                                                          ['at the start', 'unaligned', 'ending at the end of guest memory'][pl]),
                             'placement=%d' % pl))
+    # the vector given at initialisation is argv[0..argc): the array may go on behind it (tail 1) or be absent for argc = 0 (tail 2)
+    for v in vectors(2):
+        for tail in ((1, 2) if not v else (1,)):
+            for pl in (0, 2):
+                for ns in (0, 1):
+                    out.append(('args', '%s,%s,%d,%d' % (vec(v), vec((2,)), pl + 10 * tail, ns),
+                                '%s: argc=%d argv=[%s]%s, buffers %s' % (NSNAME[ns], len(v), ', '.join(STRS[k] for k in v), ' followed by two more strings in the array' if tail == 1 else ' passed as a NULL array',
+                                                                          ['at the start', 'unaligned', 'ending at the end of guest memory'][pl]), 'placement=%d,tail=%d' % (pl, tail)))
     seqs = [s for s in itertools.product(range(4), repeat=3) if s[0] <= s[1] <= s[2]]
     for fn in 'tr':
         for ns in (0, 1):
